@@ -246,6 +246,11 @@ def part_fold(chk: Check, ex: ProcessPoolExecutor, tmp: T.Any) -> None:
         cmds = F.random_sequence(rnd, rnd.randint(6, 14), human_ok, spaces=not human_ok and j % 2 == 0)
         for fmt in (['json', 'human'] if human_ok else ['json']):
             cases.append({'id': f'fB{j}:{fmt}', 'fmt': fmt, 'cmds': cmds, 'vn': F.VAR_NAMES, 'ks': list(range(1, len(cmds) + 1))})
+    # ... and sequences with Meson's delayed-call protocol (preload.cmake): a delayed command takes effect at the next flush
+    for j in range(n_seq // 2):
+        cmds = F.protocol_sequence(rnd, rnd.randint(5, 10))
+        for fmt in ('json', 'human'):
+            cases.append({'id': f'fP{j}:{fmt}', 'fmt': fmt, 'cmds': cmds, 'vn': F.VAR_NAMES, 'ks': list(range(1, len(cmds) + 1))})
     cases = [c for part in ex.map(F.run_cases, _chunks(cases, 20)) for c in part]
     _fold_account(chk, cases)
     fold_report(chk, judge(chk, 'TraceCMakeFold', [_fold_payload(p, alphabet, prelude) for p in _chunks(cases, 400)], 'B'),
